@@ -25,7 +25,7 @@ Ltac zbh H :=
           end; cbn [andb orb negb] in H; try discriminate H).
 
 (* ---------- machine arithmetic ---------- *)
-Definition int_ok (v : Z) : Prop := - 2 ^ 31 < v < 2 ^ 31.
+Definition int_ok (v : Z) : Prop := - 2 ^ 31 < v < 2 ^ 31 - 1.
 Definition oint_ok (o : option Z) : Prop := match o with None => True | Some v => int_ok v end.
 
 Lemma p24 : 2 ^ 24 = 16777216. Proof. reflexivity. Qed.
@@ -123,7 +123,7 @@ Proof.
     + rewrite !abs_i_neg by assumption. rewrite u64_sub_l, i32_u64. f_equal. lia.
     + rewrite !abs_i_neg by assumption. rewrite u64_sub_r, i32_u64. f_equal. lia.
     + destruct (Z.ltb_spec a st); reflexivity.
-  - destruct c as [s|]; [destruct ((s <? 0) && (0 <=? a))|]; reflexivity.
+  - destruct c as [s|]; [destruct ((s <? 0) && (0 <=? a)); [rewrite i32_small by (unfold int_ok in *; lia)|]|]; reflexivity.
   - destruct (Z.ltb_spec b 0); [reflexivity|]. now rewrite clip_stop_eq.
   - reflexivity.
 Qed.
